@@ -547,7 +547,7 @@ func (pf *ParserFacts) producerGuard(root ssa.Value, accepted ...atomKind) (bool
 					if !types.Identical(c.Call.Value.Type(), p.Parent().Signature) && !types.Identical(c.Call.Value.Type().Underlying(), p.Parent().Signature) {
 						continue
 					}
-					if ok, why := pf.appendGuards(g, nil, accepted...); ok {
+					if ok, why := pf.appendGuards(g, nil, nil, accepted...); ok {
 						return true, why
 					}
 				}
@@ -571,14 +571,13 @@ func (pf *ParserFacts) producerGuard(root ssa.Value, accepted ...atomKind) (bool
 	}
 	// parameters bound to the nil constant at this call site kill the branches guarded by `param != nil`
 	dead := map[*ssa.BasicBlock]bool{}
+	modeCut := map[[2]*ssa.BasicBlock]bool{} // edges taken only when a parameter bound to a non-nil argument were nil
 	for i, p := range callee.Params {
 		if i >= len(call.Call.Args) {
 			continue
 		}
-		k, ok := call.Call.Args[i].(*ssa.Const)
-		if !ok || !k.IsNil() {
-			continue
-		}
+		k, isConst := call.Call.Args[i].(*ssa.Const)
+		boundNil := isConst && k.IsNil()
 		for _, b := range callee.Blocks {
 			c, neg := condOf(b)
 			bo, ok := c.(*ssa.BinOp)
@@ -589,22 +588,29 @@ func (pf *ParserFacts) producerGuard(root ssa.Value, accepted ...atomKind) (bool
 				continue
 			}
 			isNilTrue := (bo.Op == token.EQL) != neg // cond true means param == nil
-			deadSucc := b.Succs[1]
+			nilSucc, nonNilSucc := b.Succs[0], b.Succs[1]
 			if !isNilTrue {
-				deadSucc = b.Succs[0]
+				nilSucc, nonNilSucc = nonNilSucc, nilSucc
+			}
+			if !boundNil {
+				// the nil-ness of a list parameter is a mode switch chosen by passing the nil
+				// literal; at a call site that passes a list the nil branch is not taken
+				modeCut[[2]*ssa.BasicBlock{b, nilSucc}] = true
+				continue
 			}
 			for _, x := range callee.Blocks {
-				if deadSucc.Dominates(x) && len(deadSucc.Preds) == 1 {
+				if nonNilSucc.Dominates(x) && len(nonNilSucc.Preds) == 1 {
 					dead[x] = true
 				}
 			}
 		}
 	}
-	return pf.appendGuards(callee, dead, accepted...)
+	return pf.appendGuards(callee, dead, modeCut, accepted...)
 }
 
 // appendGuards: every element appended to a list in fn is tested (accepted atom, error exit).
-func (pf *ParserFacts) appendGuards(callee *ssa.Function, dead map[*ssa.BasicBlock]bool, accepted ...atomKind) (bool, string) {
+func (pf *ParserFacts) appendGuards(callee *ssa.Function, dead map[*ssa.BasicBlock]bool, modeCut map[[2]*ssa.BasicBlock]bool, accepted ...atomKind) (bool, string) {
+	loops := naturalLoops(callee)
 	for _, b := range callee.Blocks {
 		for _, ins := range b.Instrs {
 			c, ok := ins.(*ssa.Call)
@@ -637,16 +643,79 @@ func (pf *ParserFacts) appendGuards(callee *ssa.Function, dead map[*ssa.BasicBlo
 						continue
 					}
 					d := pf.derive(st.Val, false)
+					cut := map[[2]*ssa.BasicBlock]bool{}
+					for e := range modeCut {
+						cut[e] = true
+					}
+					var kinds []string
 					for _, a := range pf.atomsOn(callee, d) {
 						if dead[a.ifi.Block()] {
 							continue
 						}
 						for _, k := range accepted {
 							if a.kind == k && leadsToErrorReturn(a.ifi.Block().Succs[1-a.holdsOn], 0) {
-								return true, "guard " + string(k) + " on each element in the producing function " + FuncName(callee)
+								cut[[2]*ssa.BasicBlock{a.ifi.Block(), a.ifi.Block().Succs[a.holdsOn]}] = true
+								kinds = append(kinds, string(k))
 							}
 						}
 					}
+					if len(kinds) == 0 {
+						continue
+					}
+					// every element is tested: no path through the append both reaches it without the
+					// passing edge and leaves it for the next iteration / a success return without it
+					skipped := ""
+					hdr := loops[b]
+					guardInLoop := false
+					var body map[*ssa.BasicBlock]bool
+					if hdr != nil {
+						body = loopBody(hdr)
+						for e := range cut {
+							if !modeCut[e] && body[e[0]] {
+								guardInLoop = true
+							}
+						}
+					}
+					before, after := false, ""
+					if guardInLoop {
+						lcut := map[[2]*ssa.BasicBlock]bool{}
+						for e := range cut {
+							lcut[e] = true
+						}
+						for blk := range body {
+							for _, sc := range blk.Succs {
+								if !body[sc] {
+									lcut[[2]*ssa.BasicBlock{blk, sc}] = true
+								}
+							}
+						}
+						for _, sc := range hdr.Succs {
+							if body[sc] && (sc == b || reachableFromWithout(sc, lcut, b)) {
+								before = true
+							}
+						}
+						if reachableFromWithout(b, lcut, hdr) {
+							after = "the next iteration"
+						}
+					} else {
+						before = b == callee.Blocks[0] || reachableFromWithout(callee.Blocks[0], cut, b)
+					}
+					for _, rb := range callee.Blocks {
+						ret, isRet := rb.Instrs[len(rb.Instrs)-1].(*ssa.Return)
+						if !isRet || isErrorReturn(ret) {
+							continue
+						}
+						if reachableFromWithout(b, cut, rb) {
+							after = "a success return"
+						}
+					}
+					if before && after != "" {
+						skipped = after
+					}
+					if skipped != "" {
+						return false, "the producing function " + FuncName(callee) + " tests " + strings.Join(uniq(kinds), "/") + " on its elements, but a path from an element to " + skipped + " avoids the test"
+					}
+					return true, "guard " + strings.Join(uniq(kinds), "/") + " on each element in the producing function " + FuncName(callee) + " (no path from an element to the next iteration or a success return avoids it)"
 				}
 			}
 		}
@@ -751,6 +820,8 @@ func (pf *ParserFacts) listReq(s SlotStore, req string) slotVerdict {
 		}
 		if ok, why := pf.producerGuard(root, acc...); ok {
 			return slotVerdict{req, true, false, why}
+		} else if why != "" {
+			lastWhy = why
 		}
 		// list literal built from synthesised nodes ([]Expression{node})
 		if sl, ok := root.(*ssa.Slice); ok {
